@@ -15,7 +15,7 @@ from vcheck.oracle import intervals, packets
 PROPERTY = "C19"
 LEVEL = "translation_validation"
 BUDGET_S = {"quick": 45, "thorough": 600}
-FLOOR = {"quick": 1500, "thorough": 15000}
+FLOOR = {"quick": 400, "thorough": 15000}
 MUST_REACH = ("ace_splits_judged", "container_splits_judged", "unsplit_left_alone_judged", "platform_conversions_driven")
 RULE = ("IOS ACEs with eq / neq x 1..10 distinct operands on the source and/or destination side, standing anywhere among "
         "other entries (remarks, single-port, range/lt/gt entries) in flat ACLs, ACLs grouped by remark prefix and "
